@@ -90,16 +90,20 @@ fn random_spec(rng: &mut Rng, lay: Lay) -> CfgSpec {
 fn gen_case(rng: &mut Rng) -> Case {
     let la = Lay::ALL[rng.below(3)];
     let a = random_spec(rng, la);
-    let b = match rng.below(4) {
-        0 => {
-            // same layout, 1-3 option flips
+    let b = match rng.below(8) {
+        0 | 1 => {
+            // same layout, exactly one option flipped (every option gets its turn)
+            CfgSpec::new(la, a.opts ^ (1 << rng.below(11)))
+        }
+        2 => {
+            // same layout, 2-3 option flips
             let mut o = a.opts;
-            for _ in 0..rng.range(1, 3) {
+            for _ in 0..rng.range(2, 3) {
                 o ^= 1 << rng.below(11);
             }
             CfgSpec::new(la, o)
         }
-        1 => a, // pure reload
+        3 => a, // pure reload
         _ => {
             let lb = Lay::ALL[rng.below(3)];
             random_spec(rng, lb)
@@ -274,7 +278,7 @@ impl Prop for C11 {
         "C11"
     }
     fn rule(&self) -> String {
-        "random triples (configuration before, history, configuration after): layouts phonetic / Probhat / synthetic with random options; the new configuration is a 1-3 option flip on the same layout (1/4), the same configuration (pure reload, 1/4) or a random configuration on a random layout (1/2); \
+        "random triples (configuration before, history, configuration after): layouts phonetic / Probhat / synthetic with random options; the new configuration is a single option flip on the same layout (1/4), 2-3 flips (1/8), the same configuration (pure reload, 1/8) or a random configuration on a random layout (1/2); \
          before the update: 0-4 words typed and finished or committed (learning commits included), 0-2 rewrites of the user auto-correct file (6 documents incl. empty object and an empty-string value) with explicitly increasing mtime, optionally an update_engine with the same configuration and another word; \
          after the update: 1-6 words, half of them words already typed before the edit, typed in the updated context and in a context newly created with the new configuration over the same user files; every key's rendering, the flag and the commits are compared. \
          distinct_nontrivial = distinct (configuration pair, history shape, continuation words) triples compared."
